@@ -103,6 +103,8 @@ def layer_cases(draw, names=None):
         x = _leaf(b, d, [N, C], first=True, lo=-32, hi=32)
         y = d(st.lists(st.integers(0, C - 1), min_size=N, max_size=N))
         p = {"y": y, "ydtype": d(st.sampled_from(["int64", "int32", "uint8"]))}
+        if name in ("multiclass_hinge", "softmax_crossentropy") and d(st.integers(0, 2)) == 0:
+            p["ytensor"] = True  # labels handed over as an integer tensor
         if name == "multiclass_hinge":
             p["hinge"] = d(st.sampled_from([1.0, 0.5, 2.0]))
             h = b.op(name, [x], p)
